@@ -54,9 +54,7 @@ def read_everything(w):
         for k, v in cat.t[tn].items():
             str(k), str(v)
     for d in (ctx.data_dbs, ctx.data_stg):
-        for f in sorted(os.listdir(d)):
-            with open(os.path.join(d, f), 'rb') as fh:
-                fh.read()
+        os.listdir(d)  # the content of every stored file is read (and hashed) by store_c07.check_store right after
     return cat
 
 
@@ -71,17 +69,11 @@ def post_crash_checks(w):
 
     try:
         dawgie.db.open()
-        read_everything(w)
+        cat = read_everything(w)
     except Exception as e:  # noqa
         w.violate('C07', 'store_unreadable', type(e).__name__, f'after a dirty crash the store cannot be read back: {e!r}')
         return
-    w.check_catalogue('crash', reopened=True, crashed=True)
-    if not w.stopped:
-        w.audit('crash')
-    if not w.stopped:
-        from worlds import store_c07
-
-        store_c07.check_store(w, 'crash', crashed=True)
+    w.check_all('crash', cat=cat, reopened=True, crashed=True)
 
 
 def crash_in_process(w, mid_phase):
@@ -306,12 +298,8 @@ def check_image(w, img, model, seen=None):
     try:
         try:
             with env.swapped_store(img):
-                read_everything(w)
-                w.check_catalogue('crash', reopened=True, crashed=True)
-                w.audit('crash')
-                from worlds import store_c07
-
-                store_c07.check_store(w, 'crash', crashed=True)
+                cat = read_everything(w)
+                w.check_all('crash', cat=cat, reopened=True, crashed=True)
         except core.HarnessError:
             raise
         except Exception as e:  # noqa
